@@ -193,8 +193,8 @@ fn check_budget_history(acc: &mut Acc, rank: u64, seg_idx: &[usize], src: Src) {
     }
 }
 
-/// The nesting budget is state that outlives a datum: after every datum that was read
-/// successfully it must be back at its initial value, otherwise a long enough stream (or one datum
+/// The nesting budget is state that outlives a datum: after every call that returns it must be
+/// back at its initial value, otherwise a long enough stream (or one datum
 /// with enough siblings) ends in a spurious "recursion limit exceeded" (seeds C01-c, C04-c: one
 /// unit leaked per empty vector / per vector). Needs the state hook.
 #[cfg(feature = "hooks")]
@@ -202,13 +202,21 @@ fn check_budget_restored(acc: &mut Acc, rank: u64, input: &[u8], po: &PO) {
     fn go<'de, R: lexpr::parse::Read<'de>>(mut p: Parser<R>, datum: bool) -> Option<(usize, u8, u8)> {
         let d0 = p.verif_state().1;
         for i in 0..64 {
-            let ok = if datum { matches!(guard(std::panic::AssertUnwindSafe(|| p.next_datum().map(|x| x.is_some()))), Ok(Ok(true))) } else { matches!(guard(std::panic::AssertUnwindSafe(|| p.next_value().map(|x| x.is_some()))), Ok(Ok(true))) };
-            if !ok {
-                return None; // error, end of input or panic: the budget after an error is not constrained here
-            }
+            // Ok(true): a datum; Ok(false): end of input; Err: a parse error (the caller may go on)
+            let r = if datum { guard(std::panic::AssertUnwindSafe(|| p.next_datum().map(|x| x.is_some()))) } else { guard(std::panic::AssertUnwindSafe(|| p.next_value().map(|x| x.is_some()))) };
+            let ended = match r {
+                Err(_) => return None, // panic: reported by the totality sub-checks
+                Ok(Ok(more)) => !more,
+                Ok(Err(_)) => false,
+            };
+            // after every call that returned — with a datum, at the end, or with an error — the
+            // budget is what it was: every level that was entered has been left again
             let d = p.verif_state().1;
             if d != d0 {
                 return Some((i, d0, d));
+            }
+            if ended {
+                return None;
             }
         }
         None
@@ -224,7 +232,7 @@ fn check_budget_restored(acc: &mut Acc, rank: u64, input: &[u8], po: &PO) {
     for (how, r) in runs {
         if let Some((i, d0, d)) = r {
             let (h, pi) = (hex(input), po.index());
-            acc.violation("depth-budget-restored", "budget-not-restored", &format!("budget-not-restored:{}", how), rank, format!("api={} input={:?} opts=[{}]", how, trunc(&show_bytes(input), 80), po.describe()), format!("after datum #{} was read successfully the remaining nesting budget is {} instead of {}", i, d, d0), || json!({"budget_input_hex": h, "po": pi}));
+            acc.violation("depth-budget-restored", "budget-not-restored", &format!("budget-not-restored:{}", how), rank, format!("api={} input={:?} opts=[{}]", how, trunc(&show_bytes(input), 80), po.describe()), format!("after call #{} returned the remaining nesting budget is {} instead of {}", i, d, d0), || json!({"budget_input_hex": h, "po": pi}));
         }
     }
 }
@@ -598,7 +606,7 @@ pub fn run(ctx: &Ctx) -> Report {
         let total = (n + corpus.len() as u64) * 3;
         let sub = Sub::new(
             "depth-budget-restored",
-            "state invariant on the real parser (hook verif_state): for every string of length <= k over the token alphabet and every corpus text, under {default, elisp, everything-on} options, slice and reader source, value and datum API: after every successfully read datum the remaining nesting budget equals its initial value; non-trivial = at least one datum read",
+            "state invariant on the real parser (hook verif_state): for every string of length <= k over the token alphabet and every corpus text, under {default, elisp, everything-on} options, slice and reader source, value and datum API: after every call that returns (a datum, end of input, or an error after which the caller goes on) the remaining nesting budget equals its initial value — a leak on any path ends, after enough calls, in a 100-deep datum being refused; non-trivial = the first datum is well-formed",
             &format!("k = {}: ({} strings + {} corpus texts) x 3 option sets x 4 parsers", k, n, corpus.len()),
         );
         let accs = par_ranks(total, |rank, acc| {
